@@ -507,7 +507,10 @@ def _raw_text_nonascii(tree):
 
 EXCLUSIONS = [
     ('F-C08-script-unencodable', lambda tree, opts, method, enc, indent, nonascii: method == 'html' and enc not in ('UTF-8', 'UTF-16') and _raw_text_nonascii(tree)),
-    ('F-C08-html-astral-split', lambda tree, opts, method, enc, indent, nonascii: method in ('html', 'text') and any(ord(ch) > 0xFFFF for _, t in gen_tree.all_strings(tree) for ch in t)),
+    # the surrogate pair must straddle a 512-unit buffer: impossible while the whole result is shorter than that (the serialized form is
+    # at most about 3x the text for the escapes that can occur), so short results with characters outside the BMP ARE judged
+    ('F-C08-html-astral-split', lambda tree, opts, method, enc, indent, nonascii: method in ('html', 'text') and any(ord(ch) > 0xFFFF for _, t in gen_tree.all_strings(tree) for ch in t)
+     and sum(len(t) + 8 for _, t in gen_tree.all_strings(tree)) > 150),
     ('F-C04-cdata-cr', lambda tree, opts, method, enc, indent, nonascii: method == 'xml' and opts['output'].get('cdata-section-elements') and
      _text_has(tree, lambda cp: cp == 13 or (opts['output'].get('version') == '1.1' and cp in (0x85, 0x2028)))),
     ('F-C08-indent-mixed-content', lambda tree, opts, method, enc, indent, nonascii: indent and method in ('xml', 'html') and mixed(tree)),
